@@ -49,6 +49,7 @@ CONSTANTS
   KF_FirstRcptClass = FALSE
   KF_RsetBypass = FALSE
   KF_RcptBeforeMail = %s
+  KF_HeloReportsEhlo = FALSE
   Tls = "off"
   PeerTls = FALSE
   Creds = FALSE
